@@ -274,7 +274,10 @@ type IG struct {
 	succ   [][]int
 	first  map[*ssa.BasicBlock]int
 	// cache for the value-sensitive search (ssax_vs.go)
-	relevant map[ssa.Value]bool
+	relevant  map[ssa.Value]bool
+	valIDs    map[ssa.Value]int
+	liveCache map[*ssa.BasicBlock]map[ssa.Value]bool
+	liveKey   int
 }
 
 func buildIG(fn *ssa.Function) *IG {
